@@ -35,7 +35,8 @@ def build_cards(pt, ckm2):
     kins = [dict(x=x, Q2=2 * Q2), dict(x=x, Q2=4 * Q2), dict(x=x, Q2=Q2), dict(x=x, Q2=8 * Q2)] + [dict(x=xo, Q2=Q2) for xo in off]
     ob = cards.obs({name: kins}, xgrid=xg, deg=3, prDIS=pt["proc"],
                    ProjectileDIS=cards.PROJ_NAME[pt["proj"]], PolarizationDIS=float(common.frac(pt["pol"])),
-                   PropagatorCorrection=float(1 - common.frac(pt["omd"])))
+                   PropagatorCorrection=float(1 - common.frac(pt["omd"])),
+                   **({} if pt.get("tza", 1) == 1 else dict(TargetDIS=dict(A=pt["tza"], Z=1))))       # (A before Z, integers: a YAML card)
     return th, ob, name, x, 4, off
 
 
@@ -144,7 +145,7 @@ def run(ctx):
     for oid, clause in bad.items():
         o, ln = byoid[oid]
         pt = o["pt"]
-        key = f"{pt['proc']}:{pt['proj']}:{pt['kind']}_{pt['flav']}:nf{pt['nf']}:{clause}"
+        key = f"{pt['proc']}:{pt['proj']}:{pt['kind']}_{pt['flav']}:nf{pt['nf']}{'' if pt.get('tza', 1) == 1 else ':A' + str(pt['tza'])}:{clause}"
         ctx.violation(key, f"LO row of {pt['kind']}_{pt['flav']} ({pt['proc']}, projectile {pt['proj']}) is not the "
                       f"parton-model row: {clause}", dict(kind="C02", obligation=o, observed=ln))
     # 5. conformance of the assembly model itself (all orders, schemes, heavynesses, a nuclear target): Kernels.Assemble(cell)
